@@ -94,7 +94,9 @@ Definition sort_by_id (l : list (nat * Z)) : list (nat * Z) := fold_right insert
 Definition enc_pairs (l : list (nat * Z)) : list Z :=
   Z.of_nat (length l) :: flat_map (fun e : nat * Z => [Z.of_nat (fst e); snd e]) l.
 Definition enc_state (s : state) : list Z :=
-  now s :: Z.of_nat (length (items s)) :: items s ++ enc_pairs (sort_by_id (waiters s)) ++ enc_pairs (adm s).
+  now s :: Z.of_nat (length (items s)) :: items s ++ enc_pairs (sort_by_id (waiters s))
+  ++ Z.of_nat (length (adm s)) :: enc_pairs (skipn (length (adm s) - 1) (adm s)).
+  (* adm is append-only: its length and last entry after every action determine the whole log *)
 Definition hmix (h x : Z) : Z := Z.land (h * 131 + x + 7) 2305843009213693951.
 Definition fingerprint (w c : Z) (acts : list action) : Z :=
   fold_left (fun h s => fold_left hmix (enc_state s) h) (trace w c (init 0) acts) 7.
